@@ -90,6 +90,9 @@ pub fn start_histories() -> Vec<Vec<Txn>> {
         vec![e("1", "X", "B")],
         vec![e("2", "X", "A"), e("1", "Y", "B")],
         vec![e("1", "Y", "A"), e("3", "X", "B"), e("-1", "Y", "B")],
+        // A holds three, and four, commodities ("several" is not only "two")
+        vec![e("1", "X", "A"), e("2", "Y", "A"), e("3", "Z", "A")],
+        vec![e("1", "X", "A"), e("2", "Y", "A"), e("3", "Z", "A"), e("-4", "W", "A")],
     ]
 }
 
